@@ -292,11 +292,14 @@ int main(int argc, char **argv) {
     }
   }
   if (A.thorough()) {
-    jobs.push_back({cfgs[1], 2, 1, 2});
-    jobs.push_back({cfgs[3], 2, 1, 2});
-    jobs.push_back({cfgs[4], 2, 1, 2});
-    jobs.push_back({cfgs[8], 2, 1, 2});
-    jobs.push_back({cfgs[1], 3, 1, 2});
+    // deviation bound 2: the smallest layout with two steps, two-subgrid layouts with one step
+    jobs.push_back({cfgs[0], 2, 1, 2});
+    Config one = cfgs[1];
+    one.steps = 1;
+    jobs.push_back({one, 2, 1, 2});
+    one = cfgs[8];
+    one.steps = 1;
+    jobs.push_back({one, 2, 1, 2});
   } else {
     jobs.push_back({cfgs[1], 3, 1, 1});
     jobs.push_back({cfgs[4], 3, 0, 1});
